@@ -36,19 +36,20 @@ REQUIRED_CLASSES = ["rule:add", "rule:sub", "rule:mul", "rule:div", "rule:pow^",
                     "rule:number", "rule:var", "rule:getitem", "rule:call1", "rule:call2", "rule:paren",
                     "number:int", "number:trailing-dot", "number:leading-dot", "number:exponent", "number:leading-zeros",
                     "name:dotted", "name:percent", "name:leading-dot", "name:underscore", "whitespace:tab",
-                    "mode:item", "mode:attr", "zero-division-deviation", "push-path"]
+                    "mode:item", "mode:attr", "zero-division-deviation", "push-path", "values:ints"]
 
 VARS = ["a", "b1", "x.y", "_u", "k%s", ".z", "on_x1.l", "A", "kq4.r8b2"]
 ELEMS = {"el": ["k1", "l"], "mq.1": ["k1", "angle"], "d_2": ["l"]}
 FUN1 = ["sin", "cos", "sqrt", "exp", "atan", "fabs", "log"]
-FUN2 = ["atan2", "hypot", "pow", "fmod"]
+FUN2 = ["atan2", "hypot", "pow", "fmod", "copysign"]
 NUMS = ["0", "1", "2", "3", "10", "007", "1.", "2.5", ".5", ".25", "1e3", "1E-2", "1.5e+2", "2.e0", "0.0", "12.75", "3e-1"]
 
 
 class Walker:
-    def __init__(self, draw):
+    def __init__(self, draw, arith_only=False):
         self.draw = draw
         self.rules = set()
+        self.arith_only = arith_only        # + - * / signs parentheses only (the integer-valued family)
 
     def ws(self):
         r = self.draw(st.integers(0, 9))
@@ -69,7 +70,7 @@ class Walker:
         return [op, self.product(d - 1), self.power(d - 1)]
 
     def power(self, d):
-        if d <= 0 or self.draw(st.integers(0, 3)) > 0:
+        if d <= 0 or self.arith_only or self.draw(st.integers(0, 3)) > 0:
             return self.atom(d)
         sym = self.draw(st.sampled_from(["^", "**"]))
         self.rules.add("pow" + sym)
@@ -80,7 +81,8 @@ class Walker:
         return ["pow", base, ex, sym]
 
     def atom(self, d):
-        k = self.draw(st.sampled_from(["num", "num", "var", "var", "var", "get", "neg", "pos", "call", "paren"]
+        k = self.draw(st.sampled_from(["num", "num", "var", "var", "var", "get", "neg", "pos", "paren"] +
+                                      ([] if self.arith_only else ["call"])
                                       if d > 0 else ["num", "var", "var", "get"]))
         self.rules.add({"num": "number", "get": "getitem", "paren": "paren"}.get(k, k))
         if k == "num":
@@ -184,22 +186,42 @@ def has(t, kinds):
     return any(has(x, kinds) for x in t[1:3] if isinstance(x, list))
 
 
-value_st = st.one_of(st.sampled_from([0.0, 1.0, -1.0, 2.0, 0.5, -2.5, 3.0, 1e-3, 1e3, 7.25]),
+value_st = st.one_of(st.sampled_from([0.0, -0.0, 1.0, -1.0, 2.0, 0.5, -2.5, 3.0, 1e-3, 1e3, 7.25]),
                      st.integers(-40, 40).map(lambda i: i / 8.0))
+# the integer-valued family (variables and attributes hold Python ints, some beyond 2**53 and beyond the float range):
+# Python's int / int is the correctly rounded exact quotient; only + - * / and signs are used there (no power: int ** int
+# is unbounded; no functions: with mixed int / float operands the compiled build may differ from CPython in the SIGN of a
+# zero, which only a function such as atan2 / copysign could turn into a different value)
+int_value_st = st.sampled_from([0, 1, -1, 2, 3, 7, -3, 10, 2 ** 53 + 1, 3 * (2 ** 53 + 1), -(2 ** 53 + 3), 2 ** 64 + 1,
+                                10 ** 400, 10 ** 399, -10 ** 400, 6 * 10 ** 399])
 
 
 @st.composite
 def cases(draw):
-    wk = Walker(draw)
+    ints = draw(st.integers(0, 5)) == 0
+    wk = Walker(draw, arith_only=ints)
     tree = wk.sum(draw(st.integers(1, 6)))
-    vals1 = {v: draw(value_st) for v in VARS}
-    vals2 = {v: draw(value_st) for v in VARS}
-    el1 = {e: {a: draw(value_st) for a in attrs} for e, attrs in ELEMS.items()}
-    el2 = {e: {a: draw(value_st) for a in attrs} for e, attrs in ELEMS.items()}
-    el3 = {e: {a: draw(value_st) for a in attrs} for e, attrs in ELEMS.items()}
+    vst = int_value_st if ints else value_st
+    enc = (lambda v: {"int": str(v)}) if ints else (lambda v: v)      # big ints travel as text in the JSON case
+    vals1 = {v: enc(draw(vst)) for v in VARS}
+    vals2 = {v: enc(draw(vst)) for v in VARS}
+    el1 = {e: {a: enc(draw(vst)) for a in attrs} for e, attrs in ELEMS.items()}
+    el2 = {e: {a: enc(draw(vst)) for a in attrs} for e, attrs in ELEMS.items()}
+    el3 = {e: {a: enc(draw(vst)) for a in attrs} for e, attrs in ELEMS.items()}
     return {"kind": "madx", "tree": tree, "text": wk.text(tree), "full": wk.text(tree, full=True),
             "mode": draw(st.sampled_from(["item", "attr"])), "vals": [vals1, vals2], "elems": [el1, el2], "elems3": el3,
-            "rules": sorted(wk.rules)}
+            "rules": sorted(wk.rules), "ints": ints}
+
+
+def _dec_vals(x):
+    """undo the text encoding of integer values (recursively over the dicts of a case)"""
+    if isinstance(x, dict):
+        if set(x) == {"int"}:
+            return int(x["int"])
+        return {k: _dec_vals(v) for k, v in x.items()}
+    if isinstance(x, list):
+        return [_dec_vals(v) for v in x]
+    return x
 
 
 class ElObj:
@@ -222,6 +244,10 @@ def same(a, b):
     if a[0] == "exc":
         return a[1] == b[1]
     x, y = a[1], b[1]
+    if isinstance(x, int) and isinstance(y, int) and not isinstance(x, bool) and not isinstance(y, bool):
+        return x == y
+    if isinstance(x, int) != isinstance(y, int):
+        return False        # an exact integer on one side, a float on the other
     if isinstance(x, complex) or isinstance(y, complex):
         return isinstance(x, complex) and isinstance(y, complex) and E.same(x, y)
     return E.same(float(x), float(y))
@@ -295,6 +321,9 @@ def exec_case(ctx, case):
     def finish(f):
         ctx.stats.case(rendered, nt, sorted(classes))
         return f
+    case = dict(case, vals=_dec_vals(case["vals"]), elems=_dec_vals(case["elems"]), elems3=_dec_vals(case.get("elems3")))
+    if case.get("ints"):
+        classes.add("values:ints")
     vals1, vals2 = case["vals"]
     el1, el2 = case["elems"]
     variables = dict(vals1)
@@ -338,6 +367,13 @@ def exec_case(ctx, case):
             else:
                 obj = d[1]
                 de = outcome(obj._get_value) if E.is_ref(obj) else ("ok", obj)
+                if E.is_ref(obj):
+                    # asked again at the same valuation: the same answer (a value, or the same failure)
+                    de2 = outcome(obj._get_value)
+                    if not same(de, de2):
+                        return Failure("C19:deferred-evaluation-not-repeatable",
+                                       dict(rendered, stage=stage, rendering=name, first=show(de), second=show(de2),
+                                            immediate=show(im)))
             where = dict(rendered, stage=stage, rendering=name, immediate=show(im), deferred=show(de), python=show(py))
             if im == ("exc", "ZeroDivisionError"):
                 # documented deviation: the deferred division yields NaN and evaluation goes on (it may then hit
